@@ -197,6 +197,7 @@ func c09Expected(m *ref.Matcher, w *c09World, method, path string, hdr map[strin
 
 type c09Case struct {
 	Interleaved bool              `json:"requests_served_after_every_operation,omitempty"`
+	Repeat      int               `json:"request_served_this_many_times_in_a_row,omitempty"`
 	Ops         []c09Op           `json:"history"`
 	Other       []c09Op           `json:"other_history_reaching_the_same_state,omitempty"`
 	Method      string            `json:"request_method"`
@@ -221,6 +222,18 @@ func c09Probe(m *ref.Matcher, w *c09World, ops []c09Op, l *core.Local) string {
 				l.Evals++
 				hit, _, status, pan := c09Serve(w, method, path, hdr)
 				cs := c09Case{Ops: ops, Method: method, Path: path, Headers: hdr, Interleaved: w.inter}
+				// the same request again, twice: eligibility is a function of the constraints and the request,
+				// not of what was asked before
+				for rep := 2; rep <= 3 && pan == nil; rep++ {
+					h2, _, s2, p2 := c09Serve(w, method, path, hdr)
+					if p2 != nil || h2 != hit || s2 != status {
+						cs.Repeat = rep
+						l.Violate(fmt.Sprintf("repeated-request-answered-differently/method=%s", method),
+							fmt.Sprintf("request %s %q headers %v served %d times in a row: first registration #%d status %d, then #%d status %d (panic %v)", method, path, hdr, rep, hit, status, h2, s2, p2), cs)
+						break
+					}
+				}
+				cs.Repeat = 0
 				if pan != nil {
 					l.Violate("panic", fmt.Sprintf("ServeHTTP panicked: %v", pan), cs)
 					continue
@@ -362,6 +375,16 @@ func c09Replay(raw json.RawMessage) (bool, string) {
 		d2 := c09Probe(m, w2, c.Other, l)
 		if d1 != d2 {
 			return true, "the two histories reach the same registrations and constraints but answer the probe set differently"
+		}
+		return false, ""
+	}
+	if c.Repeat > 1 {
+		h1, _, s1, _ := c09Serve(w, c.Method, c.Path, c.Headers)
+		for rep := 2; rep <= c.Repeat; rep++ {
+			h2, _, s2, p2 := c09Serve(w, c.Method, c.Path, c.Headers)
+			if p2 != nil || h2 != h1 || s2 != s1 {
+				return true, fmt.Sprintf("the same request served %d times in a row is answered differently (#%d/%d then #%d/%d)", rep, h1, s1, h2, s2)
+			}
 		}
 		return false, ""
 	}
